@@ -98,6 +98,62 @@ CLAIMED["C02"] = dict(
     note=RENDER_NOTE,
     design="DESIGN.md 3/C02",
 )
+CLAIMED["C03"] = dict(
+    level="exploration",
+    technique="bounded-exhaustive enumeration of clip configurations (children x clip-rule carriers x transforms x targets x nested clip x clipped ancestors) rendered by an independent point evaluator before and after conversion",
+    text="Every configuration of a finite clip grammar (1-3 clipPath children from a library where nonzero and evenodd differ, clip-rule on the child / in its style / inherited from the clipPath, transforms on clipPath and child, four target kinds, clipped clipPath, 0-2 clipped and transformed ancestors) is converted and compared with the source under the reference renderer's set-theoretic clip semantics at lattice and probe points.",
+    note=RENDER_NOTE + " clipPath transform together with a nested clip-path is excluded (specification ambiguous).",
+    design="DESIGN.md 3/C03",
+)
+CLAIMED["C04"] = dict(
+    level="exploration",
+    technique="bounded-exhaustive enumeration of stroke parameter products, judged by an independent three-valued (inside / outside / undecided) classifier of the ideal stroke region",
+    text="Every combination of geometry x width x cap x join x miterlimit x dash array/offset x outer transform x carrier of the stroke properties x fill x opacities in the stated product is converted; at every sample point that the reference classifies as definitely inside or definitely outside the ideal stroke (computed in the shape's own coordinate system, delta = 0.5) the output must show the stroke paint directly above the fill with the right alpha. A violation is additionally attributed (by re-converting with svg_pathops.stroke's simplify() skipped) so that the recorded Skia defect is matched precisely.",
+    note=RENDER_NOTE + " The undecided zone (caps, joins, dash ends, within delta of the outline) is not checked.",
+    design="DESIGN.md 3/C04",
+)
+CLAIMED["C05"] = dict(
+    level="exploration",
+    technique="deviation-bounded exhaustive enumeration (all placements of 0-2 / 3 property settings in template trees) rendered by an independent evaluator incl. cascade and group-opacity compositing",
+    text="All documents obtained from three template trees by 0, 1 or 2 (thorough: 3) property settings (level x property x attribute/style/both x value incl. explicit defaults and zero opacity) are converted; canonical paint stacks and composited colours are compared at lattice/probe points, and vanished content must be absent from the output.",
+    note=RENDER_NOTE + " Scope exclusion: visible stroke together with an opacity 0.5 setting (C04's scope).",
+    design="DESIGN.md 3/C05",
+)
+CLAIMED["C06"] = dict(
+    level="exploration",
+    technique="bounded-exhaustive enumeration of gradient configurations x shapes x transform chains, judged by an independent gradient evaluator (raw parameter and colour at every interior lattice point)",
+    text="Every member of the product kind x coordinate style x units x gradientTransform x spread x href pattern x radial focus x shape x transform chain is converted; for each lattice point strictly inside the shape the raw gradient parameter (1e-3) and the colour (2.5/255) computed from the source gradient must equal those computed from the output gradient; output gradients must be self-contained.",
+    note=RENDER_NOTE,
+    design="DESIGN.md 3/C06",
+)
+CLAIMED["C13"] = dict(
+    level="exploration",
+    technique="bounded-exhaustive enumeration of operand tuples x fill rules x operations x API level, judged by an independent winding-number oracle at lattice points",
+    text="Every operand tuple (length 1-2 full, 3-4 over sub-libraries) from 12 outlines at 3 offsets x a fill rule per operand x the four operations, through svg_pathops, the shape-level wrappers and SVGPath.remove_overlaps, plus a degenerate family, is executed; the result's interior (under nonzero and evenodd) is compared with the set combination of the operands' interiors at every lattice point outside a 0.3 band.",
+    note="Trusted: R1 interpreter, winding evaluator (cross-checked against Skia's contains in the self-tests). Lattice points only.",
+    design="DESIGN.md 3/C13",
+)
+CLAIMED["C18"] = dict(
+    level="exploration",
+    technique="bounded-exhaustive enumeration of degenerate geometries x paint attribute products, judged by exact hand-computed areas and by rendering before/after removal",
+    text="A library of 24 (mostly degenerate) geometries with exactly known painted area under both fill rules is combined with every combination of fill, stroke, stroke-width, three opacities and display as attributes / style / contradicting both; might_paint() must be True whenever the reference says the shape paints; remove_unpainted_shapes() and remove_empty_subpaths() results are rendered by R3 and must equal the original.",
+    note="Trusted: hand-computed areas in mc/props/c18.py, R3. Slivers with 0 < area <= 1e-4 are undecided.",
+    design="DESIGN.md 3/C18",
+)
+CLAIMED["C19"] = dict(
+    level="exploration",
+    technique="bounded-exhaustive enumeration of shape placements relative to the viewBox (5x5 grid x viewBoxes x shape kinds, pairs, groups) rendered before/after; exact-extrema bounding boxes for a shape library",
+    text="Pico documents with every shape of a library at every position of a 5x5 placement grid (inside, outside, straddling each side and corner) for three viewBoxes, pairs of shapes, kept groups and covering shapes are clipped with clip_to_viewbox (copy, in-place, CLI) and compared with the same document under a reference clip to the viewBox rectangle; bounding boxes are compared with exact extrema boxes (derivative roots / ellipse parametrisation).",
+    note=RENDER_NOTE + " Rounding of clipped coordinates is not judged (clip_to_viewbox has no ndigits contract).",
+    design="DESIGN.md 3/C19",
+)
+CLAIMED["C20"] = dict(
+    level="exploration",
+    technique="bounded-exhaustive enumeration of (outline, affine map, tolerance) triples incl. near misses, unrelated pairs and flag toggles; every reported transform re-verified by an independent model",
+    text="For 15 outlines x ~170 affine maps x 4 tolerances (plus near misses, identical pairs, unrelated pairs, toggled arc flags) affine_between is called; whenever it reports a transform, the reference model applies it to the first outline's relative command form and requires every vector of the second outline within tolerance (arcs as point sets, absolute drift ceiling); identical shapes must give the identity and pure translations must be found.",
+    note="Trusted: R1/R2. 'Command for command' is read on the relative command form (weaker reading).",
+    design="DESIGN.md 3/C20",
+)
 NOT_YET = "check not built yet in this session (design in DESIGN.md section 3); no claim is made"
 
 checks = []
